@@ -122,11 +122,11 @@ class Stages:
         o_log, o_corr, o_eval = bc.log_scale_cropbufs_inplace, bc.do_correlations, bc.evaluate_correlations
         st = self
 
-        def log_(cb):
-            st.cur = {"cropped": np.array(cb)}
+        def log_(crop_bufs):      # same signature as the wrapped function: the caller may use keywords
+            st.cur = {"cropped": np.array(crop_bufs)}
             st.blocks.append(st.cur)
-            o_log(cb)
-            st.cur["logged"] = np.array(cb)
+            o_log(crop_bufs)
+            st.cur["logged"] = np.array(crop_bufs)
 
         def corr_(template, crop_parts, with_specs=False):
             st.cur["corr_in"] = np.array(crop_parts)
